@@ -299,6 +299,9 @@ func (r *Raft) onSnapshotTaken(t snapTaken) {
 		}
 		if nowCompact > r.log.PrevIndex() {
 			_ = r.compactLog(nowCompact)
+			if r.state == Leader && r.ldr.removeLTE < r.log.PrevIndex() {
+				r.ldr.removeLTE = r.log.PrevIndex()
+			}
 		}
 		if canCompact > nowCompact {
 			// notify repls with new logView
